@@ -141,18 +141,6 @@ xstrlncpy(char *restrict dst, size_t dsz, const char *src, size_t ssz)
 }
 #endif	/* STANDALONE */
 
-static const void*
-align_to(size_t tz, const void *p)
-{
-	uintptr_t x = (uintptr_t)p;
-
-	if (x % tz) {
-		x -= x % tz;
-	}
-	return (const void*)x;
-}
-#define ALIGN_TO(tz, p)	align_to(sizeof(tz), p)
-
 
 /* public API */
 static inline size_t
@@ -248,50 +236,48 @@ tzm_find(tzmap_t m, const char *mname)
 {
 /* lookup zname for MNAME */
 	const znoff_t *sp = (const void*)tzm_mnames(m);
-	const znoff_t *ep = sp + tzm_mname_size(m) / sizeof(*sp) - 1U;
+	const znoff_t *ep = sp + tzm_mname_size(m) / sizeof(*sp);
 	const char *zns = tzm_znames(m);
 
-	/* do a bisection now */
-	do {
-		const char *mp = mname;
-		const char *tp;
-		const char *p;
+	/* do a bisection now, over records that is
+	 * a record is the key, \nul-padded to the next znoff_t boundary,
+	 * followed by the offset word, and since zone name offsets fit
+	 * in 16 bits the offset word is the only one to start with \nul */
+	while (sp < ep) {
+		const znoff_t *kp = sp + (ep - sp) / 2U;
+		const znoff_t *op;
+		int c;
 
-		tp = (const char*)(sp + (ep - sp) / 2U);
-		if (!*tp) {
-			/* fast forward to the next entry */
-			tp += sizeof(*sp);
-		} else {
-			while (tp[-1] != '\0') {
-				/* rewind to beginning */
-				tp--;
+		if (!*(const char*)kp) {
+			/* offset word, the key is in front of it */
+			if (UNLIKELY(kp-- == sp)) {
+				break;
 			}
 		}
-		/* store tp again */
-		p = tp;
-		/* now unroll a strcmp */
-		for (; *mp && *mp == *tp; mp++, tp++);
-		if (*mp - *tp < 0) {
+		/* rewind to the beginning of the key */
+		for (; kp > sp && *(const char*)(kp - 1U); kp--);
+		/* fast forward to the offset word */
+		for (op = kp; op < ep && *(const char*)op; op++);
+		if (UNLIKELY(op >= ep)) {
+			/* no offset to this one? */
+			break;
+		}
+		/* the key is terminated by its padding or the offset word */
+		if ((c = strcmp(mname, (const char*)kp)) < 0) {
 			/* use lower half */
-			ep = (const znoff_t*)p - 1U;
+			ep = kp;
+		} else if (c > 0) {
+			/* use upper half */
+			sp = op + 1U;
 		} else {
-			/* forward to the next znoff_t alignment */
-			const znoff_t *op =
-				(const znoff_t*)ALIGN_TO(znoff_t, tp - 1U) + 1U;
-
-			if (*mp - *tp > 0) {
-				/* use upper half */
-				sp = op + 1U;
-			} else {
-				/* found it */
-				return zns + (be32toh(*op) >> 8U);
-			}
+			/* found it */
+			return zns + (be32toh(*op) >> 8U);
 		}
-	} while (sp < ep);
+	}
 	return NULL;
 }
 
-
+
 #if defined STANDALONE
 /* array of all zone names */
 static char *zns;
